@@ -108,6 +108,14 @@ def path_condition(fn_node, target, loop_scoped=True):
       return leaves(last.body) and leaves(last.orelse)
     return False
 
+  def may_leave(stmts):
+    for st in stmts:
+      if isinstance(st, (ast.Return, ast.Raise, ast.Continue, ast.Break)):
+        return True
+      if isinstance(st, ast.If) and (may_leave(st.body) or may_leave(st.orelse)):
+        return True
+    return False
+
   def contains(n):
     return n is target or any(x is target for x in ast.walk(n))
 
@@ -135,10 +143,14 @@ def path_condition(fn_node, target, loop_scoped=True):
   def rec(stmts):
     for i, s in enumerate(stmts):
       if isinstance(s, ast.If) and not contains(s):
-        if leaves(s.body) and not leaves(s.orelse):
+        if leaves(s.body) and not may_leave(s.orelse):
           out.append(('F', s.test))
-        elif leaves(s.orelse) and not leaves(s.body):
+        elif leaves(s.orelse) and not may_leave(s.body):
           out.append(('T', s.test))
+        elif may_leave(s.body) or may_leave(s.orelse):
+          # some branches leave, some fall through: ('C', stmt) stands for
+          # "this statement completes normally" (see completes())
+          out.append(('C', s))
         continue
       if not contains(s):
         continue
@@ -165,9 +177,26 @@ def path_condition(fn_node, target, loop_scoped=True):
   return out
 
 
+def completes(stmts, atom_of):
+  """Formula under which the statement list runs to its end (no return / raise
+  / continue / break on the way); loops, with and try blocks count as
+  completing."""
+  f = TRUE
+  for st in stmts:
+    if isinstance(st, (ast.Return, ast.Raise, ast.Continue, ast.Break)):
+      return FALSE
+    if isinstance(st, ast.If):
+      c = bool_formula(st.test, atom_of)
+      f = f & ((c & completes(st.body, atom_of)) | (~c & completes(st.orelse, atom_of)))
+  return f
+
+
 def condition_formula(fn_node, target, atom_of):
   f = TRUE
   for pol, t in path_condition(fn_node, target):
+    if pol == 'C':
+      f = f & completes([t], atom_of)
+      continue
     g = bool_formula(t, atom_of)
     f = f & (g if pol == 'T' else ~g)
   return f
